@@ -4,6 +4,7 @@
   the implementation must agree with (twin of harness/hk.cpp).
 -/
 import PiqpModel.LinAlg
+import PiqpModel.Csc
 import PiqpModel.Driver.Parse
 
 namespace Piqp.Driver
@@ -20,6 +21,21 @@ def dotsMat (r c : Nat) : P (Mat QQ r c) := do
       | some q => ent := ent.push q
       | none => throw s!"bad entry '{t}'"
   pure (Mat.ofFn fun i j => ent.getD (i.val * c + j.val) QQ.poison)
+
+/-- `r*c` tokens kept as optional entries (row-major) -/
+def dotsOpt (r c : Nat) : P (Array (Option QQ)) := do
+  let mut ent : Array (Option QQ) := Array.mkEmpty (r * c)
+  for _ in [0:r * c] do
+    let t ← tok
+    if t = "." then ent := ent.push none
+    else
+      match QQ.parse? t with
+      | some q => ent := ent.push (some q)
+      | none => throw s!"bad entry '{t}'"
+  pure ent
+
+def natsStr (a : Array Nat) : String := " ".intercalate (a.toList.map toString)
+def qqsStr (a : Array QQ) : String := " ".intercalate (a.toList.map toString)
 
 /-- `r c` then the entries -/
 def rawDense : P (Σ r c : Nat, Mat QQ r c) := do
@@ -104,6 +120,30 @@ def ldlStep (cmd : String) : P (List String) := do
     let pre : Mat QQ r c := Mat.ofFn fun i j => a[i][j] * dl[i]
     let post : Mat QQ r c := Mat.ofFn fun i j => pre[i][j] * dr[j]
     pure [s!"pre {matStr pre}", s!"post {matStr post}"]
+  | "csc.scale" =>
+    -- storage level: the three arrays after pre_mult_diagonal and after post_mult_diagonal
+    let r ← nat
+    let c ← nat
+    let ent ← dotsOpt r c
+    let dl ← qqArray r
+    let dr ← qqArray c
+    let A : Csc QQ := Csc.ofOpt r c ent
+    let A1 := A.preMultDiag dl
+    let A2 := A1.postMultDiag dr
+    pure [s!"cscouter {natsStr A2.outer}", s!"cscinner {natsStr A2.inner}", s!"cscpre {qqsStr A1.vals}", s!"cscpost {qqsStr A2.vals}"]
+  | "csc.transpose" =>
+    -- storage level: C has the pattern of Aᵀ and stale values; the three arrays of C after transpose_no_allocation
+    let r ← nat
+    let c ← nat
+    let ent ← dotsOpt r c
+    let A : Csc QQ := Csc.ofOpt r c ent
+    let entT : Array (Option QQ) := Array.ofFn (n := c * r) fun t =>
+      let i := t.val / r   -- row of the transpose = column of A
+      let j := t.val % r
+      (ent.getD (j * c + i) none).map fun _ => (7 : QQ)
+    let C : Csc QQ := Csc.ofOpt c r entT
+    let C' := A.transposeInto C
+    pure [s!"cscouter {natsStr C'.outer}", s!"cscinner {natsStr C'.inner}", s!"cscvals {qqsStr C'.vals}"]
   | "ord.amd" =>
     -- Eigen's AMD is not modelled: only "returns a permutation whose inverse table and perm/permt are consistent"
     pure ["isperm 1 inv 1 roundtrip 1"]
